@@ -53,7 +53,9 @@ var (
 	c09Tables     = []string{"local", "peers", "peers_v2", "schema_keyspaces", "schema_columnfamilies", "schema_columns", "schema_usertypes",
 		"LOCAL", "Peers", "PEERS_V2", "Schema_Columns", `"local"`, `"peers"`, `"peers_v2"`, `"LOCAL"`, `"Peers"`, `"Local"`,
 		"locals", "peer", "peers_v3", "local_", "schema_tables", "size_estimates", "t", "users", `"local "`, "loca", "available_ranges"}
-	c09Selectors = []string{"*", "key", "key, rpc_address", "count(*)", "peer, data_center AS dc", "now()", "JSON *", "DISTINCT key", "writetime(key)", "host_id, tokens", "*, key", "a.b", "\"Quoted\", x"}
+	c09Selectors = []string{"*", "key", "key, rpc_address", "count(*)", "peer, data_center AS dc", "now()", "JSON *", "DISTINCT key", "writetime(key)", "host_id, tokens", "*, key", "a.b", "\"Quoted\", x",
+		// selector text the proxy's lexer has no token for: the table decides, not the select clause
+		"key % 2", "@key", "é", "key ^ 2, *", "a | b", "key # 1", "~key", "100%"}
 	c09Tails     = []string{"", " LIMIT 10", " ALLOW FILTERING", " ORDER BY k DESC", " LIMIT 1 ALLOW FILTERING", " AND peer = '127.0.0.1'", " AND x IN (1, 2)", " PER PARTITION LIMIT 2"}
 )
 
